@@ -28,12 +28,6 @@ theorem wireOf_tagged (i j : Nat) (l : List Frame) : wireOf i (l.map (fun f => (
   | nil => rfl
   | cons x xs ih => cases x <;> simp [dataOf, ih]
 
-/-- the DATA payloads of a frame list -/
-def payloads : List Frame → List Bytes
-  | [] => []
-  | .data d :: r => d :: payloads r
-  | _ :: r => payloads r
-
 theorem filter_isData (w : List Frame) : w.filter Frame.isData = (payloads w).map Frame.data ∧ (payloads w).flatten = dataOf w := by
   induction w with
   | nil => simp [payloads, dataOf]
